@@ -292,17 +292,25 @@ Proof.
   destruct s, rp; reflexivity.
 Qed.
 
-(* wherever the property demands a refusal the code refuses - except a udp listener with udp.threads >= 2 *)
+(* wherever the property demands a refusal the code refuses, and nowhere else *)
 Lemma si_must_refuse_holds k rp :
-  si_must_refuse k rp = true -> k <> SiKSrv SiSrvUdpN -> si_refuses k rp = true.
+  si_must_refuse k rp = true -> si_refuses k rp = true.
 Proof.
   destruct k as [|u| | |m r mk|s]; cbn; try discriminate; auto.
-  destruct s, rp; cbn; auto; try discriminate; intros _ H; now elim H.
+  destruct s, rp; cbn; auto; try discriminate.
 Qed.
 
-Lemma si_udp_threads_shares :
-  si_must_refuse (SiKSrv SiSrvUdpN) false = true /\ si_refuses (SiKSrv SiSrvUdpN) false = false.
-Proof. split; reflexivity. Qed.
+Lemma si_refuses_iff_must k rp : si_refuses k rp = si_must_refuse k rp.
+Proof.
+  destruct k as [|u| | |m r mk|s]; try reflexivity;
+    try (destruct u; reflexivity); try (destruct m, r, mk; reflexivity).
+  destruct s, rp; reflexivity.
+Qed.
+
+(* udp.threads >= 2 implies SO_REUSEPORT: a further instance shares the address, with or without so_reuseport *)
+Lemma si_udp_threads_shares rp :
+  si_must_refuse (SiKSrv SiSrvUdpN) rp = false /\ si_refuses (SiKSrv SiSrvUdpN) rp = false.
+Proof. destruct rp; split; reflexivity. Qed.
 
 (* ---- closers and their peers ---- *)
 Lemma si_close_walk_no_wait cl :
